@@ -1,17 +1,17 @@
 #!/venv/bin/python
 """Runs every seeded change against checks in a scratch worktree (VERIF_REPO), records which checks catch it.
-usage: tools/mutant_matrix.py [tier] [name-filter]"""
+usage: tools/mutant_matrix.py [tier] [name-filter ...]"""
 import json, os, subprocess, sys, shutil
 HERE = os.path.dirname(os.path.dirname(os.path.abspath(__file__)))
 tier = sys.argv[1] if len(sys.argv) > 1 else "quick"
-flt = sys.argv[2] if len(sys.argv) > 2 else ""
+flts = sys.argv[2:] or [""]
 RELATED = {"C01": ["C02", "C09"], "C02": ["C01"], "C06": ["C01"], "C07": ["C01"], "C08": ["C10"], "C09": ["C10"], "C04": ["C05"], "C05": ["C04"],
            "C15": ["C01"], "C16": ["C01", "C02"], "C17": ["C02"], "C20": ["C01"], "C03": ["C18"], "C18": ["C03"], "C12": [], "C11": [], "C13": ["C03"],
            "C14": ["C07"], "C10": ["C08"], "C19": ["C04"]}
 rows = []
 for name in sorted(os.listdir(os.path.join(HERE, "seeded"))):
     d = os.path.join(HERE, "seeded", name)
-    if not os.path.isdir(d) or flt not in name:
+    if not os.path.isdir(d) or not any(f in name for f in flts):
         continue
     meta = json.load(open(os.path.join(d, "meta.json")))
     prop = meta["breaks_property"]
